@@ -45,11 +45,52 @@ theorem casLoop_cases {e : Ev} {c : Hp.St} {pc : Pc} {b : Bool} {cell : Nat} {a 
     (r.1 = c ∧ r.2.1.task = pc.task ∧ r.2.2 = none) ∨ r = onOk := by
   unfold casLoop at h
   split at h
-  · rw [guard_ok] at h; obtain ⟨_, h⟩ := h; cases h; exact .inl ⟨rfl, rfl, rfl⟩
-  · rw [guard_ok] at h; obtain ⟨_, h⟩ := h
-    split at h
-    · rw [guard_ok] at h; obtain ⟨_, h⟩ := h; cases h; exact .inr rfl
-    · rw [guard_ok] at h; obtain ⟨_, h⟩ := h; cases h; exact .inl ⟨rfl, rfl, rfl⟩
+  · unfold casLoad at h
+    rw [guard_ok] at h; obtain ⟨_, h⟩ := h; cases h; exact .inl ⟨rfl, rfl, rfl⟩
+  · split at h
+    · unfold casLoad at h
+      rw [guard_ok] at h; obtain ⟨_, h⟩ := h; cases h; exact .inl ⟨rfl, rfl, rfl⟩
+    · rw [guard_ok] at h; obtain ⟨_, h⟩ := h
+      split at h
+      · rw [guard_ok] at h; obtain ⟨_, h⟩ := h; cases h; exact .inr rfl
+      · rw [guard_ok] at h; obtain ⟨_, h⟩ := h; cases h; exact .inl ⟨rfl, rfl, rfl⟩
+
+/-- **both loops are accepted** — after a failed compare-exchange (`cur` is the value it reported and
+    `failed` is set) the loop accepts a load exactly as a fresh load does (the reloading loop) and
+    every other event exactly as the compare-exchange expecting the reported value does (the loop
+    `Err(v) => cur = v`) -/
+theorem casLoop_after_failure (e : Ev) (c : Hp.St) (pc : Pc) (b : Bool) (cell : Nat) (a : Int) (onOk : Res)
+    (cur : Int) (hc : pc.cur = some cur) (hf : pc.failed = true) :
+    casLoop e c pc b cell a onOk =
+      if e.k = "L" then casLoop e c { pc with cur := none } b cell a onOk
+      else casLoop e c { pc with failed := false } b cell a onOk := by
+  unfold casLoop
+  by_cases hk : e.k = "L"
+  · simp [hc, hf, hk, casLoad]
+  · simp [hc, hf, hk]
+
+/-- a failed compare-exchange of the loop changes nothing and leaves the call with the reported value
+    as `cur` and `failed` set (so that `casLoop_after_failure` applies to the next event) -/
+theorem casLoop_failure {e : Ev} {c : Hp.St} {pc : Pc} {b : Bool} {cell : Nat} {a : Int} {onOk r : Res}
+    (h : casLoop e c pc b cell a onOk = .ok r) (hk : e.k = "C") (hok : e.ok = false) :
+    r = (c, { pc with cur := some ((c.sh b).cell cell), failed := true }, none) ∧
+      e.res = f64OfInt ((c.sh b).cell cell) := by
+  have hload : ∀ x, casLoad e c pc b x = .ok r → False := by
+    intro x h
+    unfold casLoad at h
+    rw [guard_ok] at h
+    simp [hk] at h
+  unfold casLoop at h
+  split at h
+  · exact (hload _ h).elim
+  · split at h
+    · exact (hload _ h).elim
+    · rw [guard_ok] at h; obtain ⟨_, h⟩ := h
+      simp only [hok, Bool.false_eq_true, if_false] at h
+      rw [guard_ok] at h; obtain ⟨hg, h⟩ := h
+      simp only [Bool.and_eq_true, beq_iff_eq] at hg
+      cases h
+      exact ⟨rfl, hg.2⟩
 
 theorem evStep_refines {k : Nat} {c : Hp.St} {cuts : Cuts} {e : Ev} {pc : Pc} {c' : Hp.St} {pc' : Pc}
     {rv : Option String} {cuts' : Cuts}
